@@ -131,6 +131,11 @@ theorem refreshStep_grows {p : Nat → Prop} {fe mc} (hfe : FetchGrows p fe) (hm
 theorem recordUseFor_trace (P : Prog) (s : State) (q : Nat) : (recordUseFor P s q).trace = s.trace := by
   unfold recordUseFor; split <;> rfl
 
+theorem growsBy_recordUse {p : Nat → Prop} {s t : State} (P : Prog) (q : Nat) (a : GrowsBy p s t) :
+    GrowsBy p s (recordUseFor P t q) := by
+  obtain ⟨n, e, h⟩ := a
+  exact ⟨n, by rw [recordUseFor_trace]; exact e, h⟩
+
 theorem fetchStep_grows {p : Nat → Prop} {fe mc} (hfe : FetchGrows p fe) (hmc : McaGrows p mc) (P : Prog)
     (s : State) (q : Nat) (hq : p q) : GrowsBy p s (fetchStep fe mc P s q).1 := by
   obtain ⟨n, e, h⟩ := refreshStep_grows hfe hmc P s q hq
@@ -156,7 +161,7 @@ theorem mcaStep_grows {p : Nat → Prop} {fe mc} (hfe : FetchGrows p fe) (hmc : 
         · simp only [h3, if_false]
           cases hv : m.value with
           | none => simp only [hv]; exact hd
-          | some v => simp only [hv]; exact hd.trans (execute_grows hfe P _ q hq _)
+          | some v => simp only [hv]; exact growsBy_recordUse P q (hd.trans (execute_grows hfe P _ q hq _))
 
 /-- the engine of rank `r` only emits events of keys `< r` -/
 theorem eng_grows (P : Prog) : ∀ r, FetchGrows (· < r) (eng P r).1 ∧ McaGrows (· < r) (eng P r).2 := by
@@ -248,7 +253,7 @@ theorem mca_untracked_exec (P : Prog) (s : State) (q rev : Nat) (m : Memo) (v : 
   obtain ⟨hfe, _⟩ := eng_grows P q
   rw [eng_mca_self]
   unfold mcaStep
-  simp only [hm, h1, if_false, h2, deepVerify, hu, if_true, Bool.false_eq_true, hv]
+  simp only [hm, h1, if_false, h2, deepVerify, hu, if_true, Bool.false_eq_true, hv, recordUseFor_trace]
   exact execute_trace hfe P s q _
 
 /-! ### eviction -/
